@@ -20,7 +20,7 @@ for p in props:
         'evidence_file': '/verif/evidence/%s.json' % pid,
         'replay_cmd_template': './check replay {path}',
         'engine': 'zivc',
-        'level_claimed': {'category': c.get('level', 'proof'), 'text': c['level_text'], 'design_ref': c.get('design_ref', 'DESIGN.md section 5, ' + pid)},
+        'level_claimed': {'category': c.get('level', 'proof'), 'text': c['level_text'] + c.get('level_text_extra', ''), 'design_ref': c.get('design_ref', 'DESIGN.md section 5, ' + pid)},
         'level_note': c['level_note'],
         'technique': c.get('technique', 'contract-based deductive verification: side-car contracts on the real functions, VCs generated from the ast on every run, discharged by z3/cvc5; bounded run-time contract checking as labelled stand-in'),
     })
